@@ -122,6 +122,12 @@ struct Sim {
   unsigned intruder_at = 0, read_returns = 0;
   bool intruder_ran = false;
   string intruder_failure;
+  // a descendant of the child (a daemonised helper, a background job) that inherited the child's stdout: it keeps
+  // the pipe open after the child's exit and writes a little every 200 ms of simulated time for as long as the call
+  // lasts. Played by the simulator itself through a duplicate of the pipe's write end.
+  bool descendant = false;
+  int desc_fd = -1, desc_err_fd = -1;
+  uint64_t desc_next_tick = 0, desc_written = 0;
   int entry_errno = 0; // errno as the call under test finds it
   string state_diff; // process-wide state the call left changed
 };
@@ -291,6 +297,9 @@ void child_step() {
   if (c.steps > g.step_budget && !g.gave_up) sim_fail("liveness/exchange_never_ends", "child_step_budget", "the child has made 40000 steps and the call still has not finished: the exchange between parent and child never ends");
 }
 
+bool descendant_active();
+void descendant_tick();
+
 // A scheduling point of the parent: time passes, the child may run.
 void sched_point(const char* what, uint64_t arg = 0) {
   g.calls++;
@@ -315,6 +324,7 @@ void sched_point(const char* what, uint64_t arg = 0) {
   }
   ev(what, arg, k);
   for (unsigned i = 0; i < k && child_ready_to_step() && !g.gave_up; i++) child_step();
+  if (descendant_active() && g.clock >= g.desc_next_tick && !g.gave_up) descendant_tick();
   // Busy-waiting parent: nothing has changed for many calls. If the child is merely asleep this is a
   // (legal) long delay of the parent - jump to the child's wake-up instead of simulating every spin.
   // If the child is blocked for good or gone, spinning forever is a liveness failure.
@@ -343,7 +353,32 @@ void sched_point(const char* what, uint64_t arg = 0) {
 // Lets the world move while the parent is blocked. Returns false if nothing can ever change
 // (deadlock) or, with a deadline, when the deadline has been reached.
 enum Progress { MOVED, DEADLINE, STUCK };
+bool descendant_active() { return g.desc_fd >= 0 && g.ch.pid > 0 && !g.ch.alive; }
+
+void descendant_tick() {
+  struct pollfd p = {g.desc_fd, POLLOUT, 0};
+  if (__real_poll(&p, 1, 0) > 0 && (p.revents & POLLOUT) && !(p.revents & (POLLERR | POLLHUP))) {
+    static const char TICK[] = "ddddd";
+    ssize_t n = __real_write(g.desc_fd, TICK, 5);
+    if (n > 0) {
+      g.desc_written += n;
+      g.quiet_calls = 0;
+      VS_FAULT("descendant_writes_after_exit");
+      ev("descendant.tick", n);
+    }
+  }
+  g.desc_next_tick = g.clock + 200000;
+}
+
 Progress let_world_move(bool has_deadline, uint64_t deadline) {
+  if (descendant_active() && (!has_deadline || g.desc_next_tick < deadline)) {
+    if (g.desc_next_tick > g.clock) {
+      add_sim_time_us(g.desc_next_tick - g.clock);
+      g.clock = g.desc_next_tick;
+    }
+    descendant_tick();
+    return MOVED;
+  }
   bool was_alive = g.ch.alive;
   bool ready = child_ready_to_step();
   // (waking a stopped child can be the end of it: a fatal signal sent while it was stopped acts now)
@@ -431,6 +466,14 @@ void run_intruder() {
 
 // Closes the other thread's descriptors again; any that did not survive the call is recorded.
 void finish_foreign() {
+  if (g.desc_fd >= 0) {
+    __real_close(g.desc_fd);
+    g.desc_fd = -1;
+  }
+  if (g.desc_err_fd >= 0) {
+    __real_close(g.desc_err_fd);
+    g.desc_err_fd = -1;
+  }
   static dev_t null_dev = [] {
     struct stat st;
     return stat("/dev/null", &st) == 0 ? st.st_rdev : (dev_t)0;
@@ -499,6 +542,13 @@ int __wrap_gettimeofday(struct timeval* tv, void* tz) {
   return 0;
 }
 
+static void adopt_descendant_end(int write_fd) {
+  // the second pipe of a call is the child's stdout: the descendant's copy of its write end
+  if (g.descendant && g.desc_fd < 0 && g.pipe_fd_order.size() == 4) g.desc_fd = fcntl(write_fd, F_DUPFD_CLOEXEC, 210);
+  // ... and the third is its stderr, which the descendant inherited just the same (it stays silent on it)
+  if (g.descendant && g.desc_err_fd < 0 && g.pipe_fd_order.size() == 6) g.desc_err_fd = fcntl(write_fd, F_DUPFD_CLOEXEC, 210);
+}
+
 int __wrap_pipe(int fds[2]) {
   int r = __real_pipe(fds);
   if (!g.armed || r) return r;
@@ -507,6 +557,7 @@ int __wrap_pipe(int fds[2]) {
   g.parent_pipe_fds.insert(fds[1]);
   g.pipe_fd_order.push_back(fds[0]);
   g.pipe_fd_order.push_back(fds[1]);
+  adopt_descendant_end(fds[1]);
   return r;
 }
 
@@ -518,6 +569,7 @@ int __wrap_pipe2(int fds[2], int flags) {
   g.parent_pipe_fds.insert(fds[1]);
   g.pipe_fd_order.push_back(fds[0]);
   g.pipe_fd_order.push_back(fds[1]);
+  adopt_descendant_end(fds[1]);
   return r;
 }
 
@@ -1180,6 +1232,10 @@ void check_outputs(const string& api, const Script& s, const string& out, const 
     if (out.size() != r.w1_total || payload.compare(0, out.size(), out) != 0) {
       fail(api + "/stdout_mismatch", s.family, api + " returned " + std::to_string(out.size()) + " bytes of stdout but the child (cat) wrote " + std::to_string(r.w1_total) + " bytes");
     }
+  } else if (g.descendant && out.size() >= r.w1_total && matches_pattern(out.substr(0, r.w1_total), 1, r.w1_total) && out.size() - r.w1_total <= g.desc_written &&
+      out.find_first_not_of('d', r.w1_total) == string::npos) {
+    // the child's own output, complete, followed by some of what its descendant wrote to the same pipe afterwards
+    VS_PROBE("output_of_descendant_included");
   } else if (!matches_pattern(out, 1, r.w1_total)) {
     string k = out.size() < r.w1_total ? "stdout_truncated" : "stdout_mismatch";
     fail(api + "/" + k, s.family, api + " returned " + std::to_string(out.size()) + " bytes of stdout but the child wrote " + std::to_string(r.w1_total) + " bytes to it" +
@@ -1209,6 +1265,10 @@ void scen_run_process() {
   string payload = with_stdin ? make_payload(draw_bytes("payload")) : string();
   bool check = choose(2, "check");
   uint64_t timeout = choose(3, "timeout.given") == 2 ? pick({2000000, 500000, 10000000, 100}, "timeout") : 0;
+  if (!s.uses_cat && !s.holds_pipes && choose(8, "descendant") == 7) {
+    g.descendant = true;
+    VS_PROBE("child_leaves_a_chatty_descendant");
+  }
   for (size_t i = 0, pc = 0; i < s.text.size(); i++) {
     if (s.text[i] == ';') pc++;
     if (!s.text.compare(i, 7, "IGNTERM")) g.ign_term_pcs.push_back(pc);
@@ -1472,7 +1532,10 @@ void scen_lifecycle() {
     errno = g.entry_errno;
     first.emplace(cmd);
     phosg::Subprocess* sp = &*first;
-    if (move_it) {
+    // ... at a drawn moment: right after construction, after the polling wait()s (the status may be cached by
+    // then), or after the blocking wait()
+    unsigned move_when = move_it ? choose(3, "lc.move.when") : 99;
+    auto do_move = [&]() {
       if (choose(2, "lc.move.kind")) {
         second.emplace(std::move(*first));
         sp = &*second;
@@ -1483,13 +1546,21 @@ void scen_lifecycle() {
         VS_PROBE("subprocess_move_assigned");
       }
       first.reset();
-    }
+    };
+    if (move_when == 0) do_move();
     for (unsigned i = 0; i < polls; i++) polled.push_back(sp->wait(true));
+    if (move_when == 1) do_move();
     if (sig && g.ch.alive) sp->kill(sig);
     if (close_stdin_and_wait) {
       close(sp->stdin_fd()); // so that a child reading stdin sees EOF instead of waiting forever
       waited = sp->wait();
+      if (move_when == 2) {
+        do_move();
+        VS_PROBE("subprocess_moved_after_reap");
+      }
       waited_again = sp->wait(true);
+    } else if (move_when == 2) {
+      do_move();
     }
     alive_at_destruction = g.ch.alive;
     t_destruct = g.clock;
@@ -1605,5 +1676,8 @@ int main(int argc, char** argv) {
   e.expected_probes = {"payload_larger_than_pipe", "output_larger_than_pipe", "clock_jumped_over_child_sleep", "poll_timed_out", "blocking_waitpid", "timeout_killed_child", "check_threw_on_nonzero_status",
       "child_died_by_own_signal", "child_exited_with_unread_output_in_pipe", "communicate_with_deadline_returned", "communicate_without_deadline_returned", "communicate_deadline_passed", "parent_busy_wait_skipped", "lifecycle_waited", "destructor_killed_running_child", "destructor_found_child_exited", "run_process_called_repeatedly", "grandchild_kept_pipes_open", "sigkill_after_ignored_sigterm", "destructor_ended_running_child", "caller_without_descriptor_0", "caller_without_descriptor_1", "exec_failed_in_child"};
   e.expected_faults = {"EINTR@poll", "EINTR@waitpid", "spurious_EAGAIN@read", "spurious_EAGAIN@write", "short_read", "short_write", "parent_stall", "EINTR@poll(periodic_signal)", "other_thread_reuses_fd_number", "second_caller_during_read", "child_stopped_by_SIGSTOP"};
+  e.expected_probes.push_back("subprocess_moved_after_reap");
+  e.expected_probes.push_back("child_leaves_a_chatty_descendant");
+  e.expected_faults.push_back("descendant_writes_after_exit");
   return driver_main(argc, argv, e);
 }
